@@ -507,6 +507,108 @@ theorem flatten_last_complete (t : List α) (ts : List (List α)) (hne : ∀ t' 
   intro i run hi r hr
   exact key _ i rfl run hi r hr
 
+/-! #### runs without rows (a header and nothing else): the NaN maximum / minimum of pandas -/
+
+theorem mergeLast_nil_right (m : List α) : mergeLast step m [] = [] := by
+  simp [mergeLast, minStep?]
+
+theorem mergeLast_nil_left (t : List α) : mergeLast step [] t = t := by
+  simp [mergeLast]
+
+theorem mergeFirst_nil_right (m : List α) : mergeFirst step m [] = m := by
+  simp [mergeFirst]
+
+/-- **flatten_first_empty_first**: an empty first run (a header without rows) makes style `first` keep nothing
+    (every comparison with the NaN maximum of an empty table is false).  With `flatten_first` (first run non-empty,
+    later runs arbitrary) style `first` is characterised for every input. -/
+theorem flatten_first_empty_first (ts : List (List α)) : flattenFirst step ([] :: ts) = some [] :=
+  flattenFirst_nil step ts
+
+/-- an empty run other than the first changes nothing for style `first`. -/
+theorem flatten_first_empty_later (t : List α) (pre post : List (List α)) :
+    flattenFirst step (t :: (pre ++ [] :: post)) = flattenFirst step (t :: (pre ++ post)) := by
+  simp only [flattenFirst, flattenWith, foldl_append, foldl_cons, mergeFirst_nil_right]
+
+/-- **flatten_last_empty_run**: style `last` forgets everything printed before an empty run (every comparison with
+    the NaN minimum of an empty table is false): the result is that of the runs from the empty one on … -/
+theorem flatten_last_empty_run (pre post : List (List α)) :
+    flattenLast step (pre ++ [] :: post) = flattenLast step ([] :: post) := by
+  cases pre with
+  | nil => rfl
+  | cons p ps =>
+    simp only [flattenLast, flattenWith, cons_append, foldl_append, foldl_cons, mergeLast_nil_right]
+
+/-- … and an empty run that comes first is skipped.  With `flatten_last` (later runs non-empty) the three together
+    characterise style `last` for every input: cut at the last empty run, drop it, apply `flatten_last`. -/
+theorem flatten_last_empty_first (t : List α) (ts : List (List α)) :
+    flattenLast step ([] :: t :: ts) = flattenLast step (t :: ts) := by
+  simp only [flattenLast, flattenWith, foldl_cons, mergeLast_nil_left]
+
+example : flattenLast (fun r : Int × Nat => r.1) [[(0, 0), (10, 1)], [], [(5, 2)], [(20, 3)]] = some [(5, 2), (20, 3)] := by
+  decide
+
+example : flattenFirst (fun r : Int × Nat => r.1) [[(0, 0), (10, 1)], [], [(5, 2), (20, 3)]] = some [(0, 0), (10, 1), (20, 3)] := by
+  decide
+
 end Flatten
+
+/-! ## the refusals of `flatten` (table level: `Log.flatten(style, firstindex, lastindex)` on the selected records) -/
+
+/-- **flatten_refuses_missing_step**: a selected table that has rows but no `Step` column: `AssertionError`, whatever
+    the style and whatever else is selected. -/
+theorem flatten_refuses_missing_step (style : Str) (tabs : List Table)
+    (h : ∃ t ∈ tabs, t.rows ≠ [] ∧ stepName ∉ t.cols) : flattenTables style tabs = .error .assert := by
+  obtain ⟨t, ht, hr, hc⟩ := h
+  have : tabs.any (fun t => !t.rows.isEmpty && !t.cols.contains stepName) = true := by
+    rw [any_eq_true]
+    refine ⟨t, ht, ?_⟩
+    cases hrows : t.rows with
+    | nil => exact absurd hrows hr
+    | cons a b => simp [hc]
+  unfold flattenTables
+  rw [this]
+  rfl
+
+/-- **flatten_refuses_empty**: an empty selection: `IndexError`. -/
+theorem flatten_refuses_empty (style : Str) : flattenTables style [] = .error .index := by
+  simp [flattenTables]
+
+/-- **flatten_refuses_style**: two or more selected tables and a style other than `first` / `last` / `all`:
+    `ValueError`. -/
+theorem flatten_refuses_style (style : Str) (t t' : Table) (ts : List Table)
+    (hstep : ∀ x ∈ t :: t' :: ts, x.rows = [] ∨ stepName ∈ x.cols)
+    (hs : style ≠ "first".toList ∧ style ≠ "last".toList ∧ style ≠ "all".toList) :
+    flattenTables style (t :: t' :: ts) = .error .value := by
+  have h0 : (t :: t' :: ts).any (fun t => !t.rows.isEmpty && !t.cols.contains stepName) = false := by
+    rw [any_eq_false]
+    intro x hx
+    rcases hstep x hx with h | h
+    · simp [h]
+    · simp [h]
+  obtain ⟨h1, h2, h3⟩ := hs
+  unfold flattenTables
+  rw [h0]
+  simp only [Bool.false_eq_true, if_false]
+  have e1 : (style == "first".toList) = false := by simpa using h1
+  have e2 : (style == "last".toList) = false := by simpa using h2
+  have e3 : (style == "all".toList) = false := by simpa using h3
+  simp only [e1, e2, e3]
+  rfl
+
+/-- **flatten_single**: a single selected table is returned as it is (its columns, its rows in order), for every
+    style — also an unsupported one: the style is only looked at when there is something to merge. -/
+theorem flatten_single (style : Str) (t : Table) (h : t.rows = [] ∨ stepName ∈ t.cols) :
+    flattenTables style [t] = .ok t := by
+  have h0 : [t].any (fun t => !t.rows.isEmpty && !t.cols.contains stepName) = false := by
+    rcases h with h | h <;> simp [h]
+  unfold flattenTables
+  rw [h0]
+  rfl
+
+example : flattenTables "latest".toList
+    [⟨["Step".toList], [["0".toList]]⟩, ⟨["Step".toList], [["10".toList]]⟩] = .error .value := by decide
+
+example : flattenTables "all".toList
+    [⟨["Step".toList], [["0".toList]]⟩, ⟨["Time".toList], [["0.5".toList]]⟩] = .error .assert := by decide
 
 end Atomman.C19
